@@ -20,6 +20,10 @@ checks = {
    "The real binary executes each generated program with --cpu 1 and then with --cpu 2,3,4,8,16 twice each under seeded scheduling jitter in the worker goroutines; stdout and all files must be byte-identical. The hook trace proves that sections really ran on several goroutines and counts the distinct worker-arrival orders produced.",
    "Determinism is only observed on the schedules produced (jitter widens them; distinct arrival signatures are reported). Programs are --quiet.",
    "runtime monitor: differential execution across --cpu values/schedules with injected scheduling jitter"),
+ "C13": ("exploration", "§5 C13",
+   "The race-detector build (go build -race -tags verif) of the real csvq binary executes programs that split loading, filtering, joining, grouping, sorting, analytic functions, user functions, cursors and DML over 4..16 goroutines, with seeded scheduling jitter, repeated; every DATA RACE report with a csvq frame is a violation (deduplicated by the pair of top csvq frames).",
+   "Only races on accesses performed in these runs are visible, and the detector keeps a bounded access history; held = no report on the executions observed.",
+   "compiler sanitizer: Go race detector over stress workloads with injected scheduling jitter"),
 }
 order = ["C%02d" % i for i in range(1, 21)]
 na_reason = "check not built yet in this session (work in progress; see DESIGN.md)"
